@@ -238,3 +238,14 @@ package selftest
 //@ func mkCapturedBad$1
 //@   requires !isnil(c) && !isnil(p)
 //@   ensures old(c).v == 5
+
+//@ func newBox2
+//@   modifies nothing
+//@   ensures fresh(result) && fresh(result.p)
+
+// would be "proved" if the path after the constructor were contradictory
+//@ func BadAfterFreshCtor
+//@   ensures result == 2
+
+//@ func GoodAfterFreshCtor
+//@   ensures result == 3
